@@ -159,7 +159,21 @@ impl Part for GateWithAppCalls {
         let mode = s.mode();
         let stream = s.stream();
         let max_reads = boundaries(&stream, &mode).len() + s.steps.len() + 6;
-        let model = model_results(&mode, s.verify, &s.steps, true, max_reads);
+        // every read attempt returns exactly one result, so result #i is judged by the gate setting in force at attempt #i
+        // (a refused version packet consumes its frame like a delivered one: both reference runs stay aligned)
+        let on = model_results(&mode, true, &s.steps, true, max_reads);
+        let off = model_results(&mode, false, &s.steps, true, max_reads);
+        ensure!(on.len() == off.len(), "harness:model-alignment", "reference runs differ in length");
+        let mut gate = s.verify;
+        let mut model = vec![];
+        for i in 0..on.len() {
+            for (_, op) in c.app.iter().filter(|(k, _)| *k == i) {
+                if let AppOp::SetVerify(v) = op {
+                    gate = *v;
+                }
+            }
+            model.push(if gate { on[i].clone() } else { off[i].clone() });
+        }
         let b = run_blocking_app(&mode, s.verify, s.steps.clone(), vec![], max_reads, &c.app);
         let t = run_tokio_app(&mode, s.verify, s.steps.clone(), vec![], max_reads, &c.app);
         for (which, r) in [("blocking", &b), ("tokio", &t)] {
@@ -185,6 +199,9 @@ impl Part for GateWithAppCalls {
             ev.nontrivial(&format!("{:?}{}", c.app, session_json(s)));
             ev.class(if s.verify { "verify-on-with-ver" } else { "verify-off-with-ver" });
         }
+        if c.app.iter().any(|(_, o)| matches!(o, AppOp::SetVerify(_))) {
+            ev.class("gate-switched-during-the-session");
+        }
         if c.app.iter().any(|(_, o)| matches!(o, AppOp::Handshake(v) if *v != 9)) {
             ev.class("handshake-with-another-isi-version");
         }
@@ -197,6 +214,7 @@ impl Part for GateWithAppCalls {
             .map(|(k, o)| match o {
                 AppOp::Handshake(v) => json!({"before_read": k, "handshake_isi_version": v}),
                 AppOp::Write(f) => json!({"before_read": k, "write": hex(f)}),
+                AppOp::SetVerify(v) => json!({"before_read": k, "verify_version": v}),
             })
             .collect();
         json!({"session": session_json(&c.session), "app": app})
@@ -207,6 +225,8 @@ impl Part for GateWithAppCalls {
             let k = o.get("before_read")?.as_u64()? as usize;
             if let Some(h) = o.get("handshake_isi_version") {
                 app.push((k, AppOp::Handshake(h.as_u64()? as u8)));
+            } else if let Some(v) = o.get("verify_version") {
+                app.push((k, AppOp::SetVerify(v.as_bool()?)));
             } else {
                 app.push((k, AppOp::Write(unhex(o.get("write")?.as_str()?)?)));
             }
@@ -226,7 +246,8 @@ pub fn run(run: &mut Run) {
         segmentations, blocking and tokio: delivered iff verification is off or the version is 9, otherwise IncompatibleVersion carrying \
         the value, neighbours untouched. Random frames of every non-version kind must give identical results with the gate on and off. \
         Generated sessions mixing VER packets with all other kinds are compared with the reference model, also while the application \
-        calls handshake() (ISI of any version) and write() between reads. Non-trivial = the history \
+        calls handshake() (ISI of any version), write() and verify_version(on/off) between reads (each result judged by the \
+        setting in force at its read). Non-trivial = the history \
         contains a version packet (all enumerated cases)."
         .into();
     run.assumptions = vec!["the reference gate: a VER packet with InSim version != 9 is rejected when verification is enabled, nothing else ever is".into()];
@@ -250,6 +271,7 @@ pub fn run(run: &mut Run) {
     let app_op = prop_oneof![
         3 => prop_oneof![Just(9u8), 0u8..12, any::<u8>()].prop_map(AppOp::Handshake),
         2 => any::<bool>().prop_map(|_| AppOp::Write(vec![])),
+        2 => any::<bool>().prop_map(AppOp::SetVerify),
     ];
     let strat = (session_strategy(8, 1, 6, false, None), proptest::collection::vec((0usize..6, app_op), 0..4)).prop_map(|(session, app)| {
         let mode = session.mode();
